@@ -57,12 +57,20 @@ func (l *EventsLoader) LoadAndVerify(ctx context.Context, rawEvents []json.RawMe
 	// 3. Passes hash checks, otherwise it is redacted before being processed further.
 	events := make([]PDU, 0, len(rawEvents))
 	errs := make([]error, 0, len(rawEvents))
+	seen := make(map[string]struct{}, len(rawEvents))
 	for _, rawEv := range rawEvents {
 		event, err := verImpl.NewEventFromUntrustedJSON(rawEv)
 		if err != nil {
 			errs = append(errs, err)
 			continue
 		}
+		// The topological ordering below keeps one event per event ID: a repeated event would
+		// leave a result slot without event and without error. Report the repeat as an error.
+		if _, dup := seen[event.EventID()]; dup {
+			errs = append(errs, fmt.Errorf("gomatrixserverlib: duplicate event %q", event.EventID()))
+			continue
+		}
+		seen[event.EventID()] = struct{}{}
 		events = append(events, event)
 	}
 
